@@ -297,7 +297,8 @@ func installStringModels(m *Machine) {
 		}
 		return []Val{strings.Repeat(s, int(n))}, true
 	}
-	byteSliceOf := func(st *State, v Val) ([]byte, bool) {
+	byteSliceOf := func(st *State, v Val) ([]byte, bool) { return exactBytes(m, st, v) }
+	_ = func(st *State, v Val) ([]byte, bool) {
 		if _, isNil := v.(nilV); isNil {
 			return nil, true
 		}
@@ -741,6 +742,46 @@ func installStringModels(m *Machine) {
 	}
 	installErrorsModels(m)
 	installRegexpModel(m)
+	installSyncMapModel(m)
+	if _, has := m.Hooks["bytes.TrimLeftFunc"]; !has {
+		installFuncModels(m)
+	}
+	m.Hooks["unicode/utf8.DecodeRuneInString"] = func(m *Machine, st *State, call *ssa.CallCommon, args []Val) ([]Val, bool) {
+		x, ok := args[0].(string)
+		if !ok {
+			return nil, false
+		}
+		r, n := utf8.DecodeRuneInString(x)
+		return []Val{&TupleV{E: []Val{int64(r), int64(n)}}}, true
+	}
+	m.Hooks["unicode/utf8.DecodeLastRuneInString"] = func(m *Machine, st *State, call *ssa.CallCommon, args []Val) ([]Val, bool) {
+		x, ok := args[0].(string)
+		if !ok {
+			return nil, false
+		}
+		r, n := utf8.DecodeLastRuneInString(x)
+		return []Val{&TupleV{E: []Val{int64(r), int64(n)}}}, true
+	}
+	m.Hooks["unicode/utf8.DecodeRune"] = func(m *Machine, st *State, call *ssa.CallCommon, args []Val) ([]Val, bool) {
+		x, ok := exactBytes(m, st, args[0])
+		if !ok {
+			return nil, false
+		}
+		r, n := utf8.DecodeRune(x)
+		return []Val{&TupleV{E: []Val{int64(r), int64(n)}}}, true
+	}
+	m.Hooks["unicode/utf8.ValidString"] = func(m *Machine, st *State, call *ssa.CallCommon, args []Val) ([]Val, bool) {
+		x, ok := args[0].(string)
+		return []Val{utf8.ValidString(x)}, ok
+	}
+	m.Hooks["unicode/utf8.RuneCountInString"] = func(m *Machine, st *State, call *ssa.CallCommon, args []Val) ([]Val, bool) {
+		x, ok := args[0].(string)
+		return []Val{int64(utf8.RuneCountInString(x))}, ok
+	}
+	m.Hooks["unicode/utf8.RuneLen"] = func(m *Machine, st *State, call *ssa.CallCommon, args []Val) ([]Val, bool) {
+		x, ok := args[0].(int64)
+		return []Val{int64(utf8.RuneLen(rune(x)))}, ok
+	}
 }
 
 // installErrorsModels: errors.Is / errors.Unwrap over the error values of the interpreter (identity of the value, or
@@ -810,6 +851,7 @@ func initState(m *Machine, pkgs ...string) *State {
 // eofVal / unexpectedEOFVal stand for io.EOF and io.ErrUnexpectedEOF.
 var eofVal = IfaceV{T: types.NewPointer(types.Typ[types.String]), V: "io.EOF"}
 var unexpectedEOFVal = IfaceV{T: types.NewPointer(types.Typ[types.String]), V: "io.ErrUnexpectedEOF"}
+var errBufferFullVal = IfaceV{T: types.NewPointer(types.Typ[types.String]), V: "bufio.ErrBufferFull"}
 
 func installIOGlobals(m *Machine) {
 	if m.ExtGlobals == nil {
@@ -871,6 +913,29 @@ func repoPred(m *Machine, v Val, failed *bool) func(rune) bool {
 	}
 }
 
+// exactBytes reads an exact []byte out of the abstract heap.
+func exactBytes(m *Machine, st *State, v Val) ([]byte, bool) {
+	if _, isNil := v.(nilV); isNil {
+		return nil, true
+	}
+	elems, many, ok := m.sliceElems(st, v)
+	if !ok || many {
+		return nil, false
+	}
+	out := make([]byte, len(elems))
+	for i, e := range elems {
+		n, ok := e.(int64)
+		if !ok {
+			return nil, false
+		}
+		out[i] = byte(n)
+	}
+	return out, true
+}
+
+// rawBytes marks a []byte result of a model that still has to be placed in the abstract heap.
+type rawBytes []byte
+
 func installFuncModels(m *Machine) {
 	mk := func(f func(s string, p func(rune) bool) Val) HookFn {
 		return func(m *Machine, st *State, call *ssa.CallCommon, args []Val) ([]Val, bool) {
@@ -896,6 +961,33 @@ func installFuncModels(m *Machine) {
 	m.Hooks["strings.IndexFunc"] = mk(func(s string, p func(rune) bool) Val { return int64(strings.IndexFunc(s, p)) })
 	m.Hooks["strings.LastIndexFunc"] = mk(func(s string, p func(rune) bool) Val { return int64(strings.LastIndexFunc(s, p)) })
 	m.Hooks["strings.ContainsFunc"] = mk(func(s string, p func(rune) bool) Val { return strings.ContainsFunc(s, p) })
+	bf := func(f func(b []byte, p func(rune) bool) Val) HookFn {
+		return func(m *Machine, st *State, call *ssa.CallCommon, args []Val) ([]Val, bool) {
+			x, ok := exactBytes(m, st, args[0])
+			pr := unicodePred(args[1])
+			failed := false
+			if pr == nil {
+				pr = repoPred(m, args[1], &failed)
+			}
+			if !ok || pr == nil {
+				return nil, false
+			}
+			res := f(x, pr)
+			if failed {
+				return nil, false
+			}
+			if bs, isBytes := res.(rawBytes); isBytes {
+				return []Val{byteSliceVal(st, bs)}, true
+			}
+			return []Val{res}, true
+		}
+	}
+	m.Hooks["bytes.TrimRightFunc"] = bf(func(b []byte, p func(rune) bool) Val { return rawBytes(bytes.TrimRightFunc(b, p)) })
+	m.Hooks["bytes.TrimLeftFunc"] = bf(func(b []byte, p func(rune) bool) Val { return rawBytes(bytes.TrimLeftFunc(b, p)) })
+	m.Hooks["bytes.TrimFunc"] = bf(func(b []byte, p func(rune) bool) Val { return rawBytes(bytes.TrimFunc(b, p)) })
+	m.Hooks["bytes.IndexFunc"] = bf(func(b []byte, p func(rune) bool) Val { return int64(bytes.IndexFunc(b, p)) })
+	m.Hooks["bytes.LastIndexFunc"] = bf(func(b []byte, p func(rune) bool) Val { return int64(bytes.LastIndexFunc(b, p)) })
+	m.Hooks["bytes.ContainsFunc"] = bf(func(b []byte, p func(rune) bool) Val { return bytes.ContainsFunc(b, p) })
 	m.Hooks["strings.FieldsFunc"] = func(m *Machine, st *State, call *ssa.CallCommon, args []Val) ([]Val, bool) {
 		s, ok := args[0].(string)
 		pr := unicodePred(args[1])
@@ -922,12 +1014,34 @@ func installFuncModels(m *Machine) {
 var peekRest func(st *State) string
 
 func installLineReader(m *Machine, next func(st *State) (string, bool)) {
+	// One reader state for all methods: the unread rest of a line that ReadLine / ReadSlice handed out only in
+	// part (they stop after 4096 bytes, the default buffer) is what any method reads next.
+	pending := ""
+	havePending := false
+	take := func(st *State) (string, bool) {
+		if havePending {
+			havePending = false
+			return pending, true
+		}
+		return next(st)
+	}
+	if m.ExtGlobals == nil {
+		m.ExtGlobals = map[string]Val{}
+	}
+	m.ExtGlobals["bufio.ErrBufferFull"] = errBufferFullVal
 	m.Hooks["(*bufio.Reader).Peek"] = func(m *Machine, st *State, call *ssa.CallCommon, args []Val) ([]Val, bool) {
 		n, ok := args[1].(int64)
-		if !ok || peekRest == nil {
+		pr := peekRest
+		if m.PeekRest != nil {
+			pr = m.PeekRest
+		}
+		if !ok || pr == nil {
 			return nil, false
 		}
-		rest := peekRest(st)
+		rest := pr(st)
+		if havePending {
+			rest = pending + rest
+		}
 		var e Val = nilV{}
 		if int(n) > len(rest) {
 			n = int64(len(rest))
@@ -940,7 +1054,7 @@ func installLineReader(m *Machine, next func(st *State) (string, bool)) {
 			if d, ok := args[1].(int64); !ok || d != '\n' {
 				return nil, false
 			}
-			l, ok := next(st)
+			l, ok := take(st)
 			var e Val = nilV{}
 			if !ok {
 				l, e = "", eofVal
@@ -959,37 +1073,43 @@ func installLineReader(m *Machine, next func(st *State) (string, bool)) {
 	}
 	m.Hooks["(*bufio.Reader).ReadString"] = delimited(false)
 	m.Hooks["(*bufio.Reader).ReadBytes"] = delimited(true)
+	// ReadSlice hands out the first 4096 bytes of a longer line with bufio.ErrBufferFull and the rest on the
+	// following calls
 	m.Hooks["(*bufio.Reader).ReadSlice"] = func(m *Machine, st *State, call *ssa.CallCommon, args []Val) ([]Val, bool) {
-		alts, ok := delimited(true)(m, st, call, args)
-		if ok && len(alts) == 1 {
-			if tv, isT := alts[0].(*TupleV); isT {
-				if sv, isS := tv.E[0].(SliceV); isS && sv.Len_ > 4096 {
-					return []Val{&TupleV{E: []Val{tv.E[0], IfaceV{T: errType, V: "bufio: buffer full"}}}}, true
-				}
-			}
+		if d, ok := args[1].(int64); !ok || d != '\n' {
+			return nil, false
 		}
-		return alts, ok
+		l, ok := take(st)
+		if !ok {
+			return []Val{&TupleV{E: []Val{nilV{}, eofVal}}}, true
+		}
+		if len(l) > 4096 {
+			pending, havePending = l[4096:], true
+			return []Val{&TupleV{E: []Val{byteSliceVal(st, []byte(l[:4096])), errBufferFullVal}}}, true
+		}
+		var e Val = nilV{}
+		if !strings.HasSuffix(l, "\n") {
+			e = eofVal
+		}
+		var data Val = nilV{}
+		if l != "" {
+			data = byteSliceVal(st, []byte(l))
+		}
+		return []Val{&TupleV{E: []Val{data, e}}}, true
 	}
-	// ReadLine hands out a line longer than the reader's buffer (4096 bytes by default) in pieces, with
-	// isPrefix set on all but the last; ReadSlice fails on such a line (bufio.ErrBufferFull)
-	pending := ""
-	havePending := false
+	// ReadLine hands out a line longer than the buffer in pieces of 4096 bytes, isPrefix set on all but the last;
+	// the line end ("\n" or "\r\n") is not part of the data
 	m.Hooks["(*bufio.Reader).ReadLine"] = func(m *Machine, st *State, call *ssa.CallCommon, args []Val) ([]Val, bool) {
-		l := pending
-		if !havePending {
-			var ok bool
-			l, ok = next(st)
-			if !ok {
-				return []Val{&TupleV{E: []Val{nilV{}, false, eofVal}}}, true
-			}
-			l = strings.TrimSuffix(l, "\n")
-			l = strings.TrimSuffix(l, "\r")
+		l, ok := take(st)
+		if !ok {
+			return []Val{&TupleV{E: []Val{nilV{}, false, eofVal}}}, true
 		}
-		havePending = false
 		if len(l) > 4096 {
 			pending, havePending = l[4096:], true
 			return []Val{&TupleV{E: []Val{byteSliceVal(st, []byte(l[:4096])), true, nilV{}}}}, true
 		}
+		l = strings.TrimSuffix(l, "\n")
+		l = strings.TrimSuffix(l, "\r")
 		return []Val{&TupleV{E: []Val{byteSliceVal(st, []byte(l)), false, nilV{}}}}, true
 	}
 }
